@@ -25,8 +25,43 @@ def find_prepare(db):
 
 
 def continue_edges(body, bi):
+    """(success edges, failure edges, outcomes) of a fallible call, whether its result is consumed by `?` or by a match"""
     o = flow.outcomes_of_call(body, bi)
-    return o.get("Continue"), o.get("Break"), o
+    return o.get("Continue") | o.get("Ok"), o.get("Break") | o.get("Err"), o
+
+
+def absent_edges(body, bi):
+    """edges on which the Option produced by call `bi` is None: the None arm of a match / `if let`, the true edge of `.is_none()`, the false
+    edge of `.is_some()`"""
+    o = flow.outcomes_of_call(body, bi)
+    edges = set(o.get("None"))
+    for b2, t2 in body.calls():
+        d = callee_def(t2)
+        if d in ("core::option::Option::<T>::is_none", "core::option::Option::<T>::is_some") and t2["args"]:
+            p = flow.op_place(t2["args"][0])
+            if p is not None and p["l"] in o.carriers:
+                o2 = flow.outcomes_of_call(body, b2)
+                edges |= o2.get("true") if d.endswith("is_none") else o2.get("false")
+    return edges
+
+
+def absent_edges_of_place(body, pred):
+    """the same for an Option read from a place (field) whose slice satisfies pred"""
+    edges = set()
+    for bi in body.live_blocks():
+        t = body.blocks[bi]["term"]
+        if t["k"] == "switch":
+            src = paths.switch_source(body, t)
+            if src and src[0] == "discr" and pred(flow.backward(body, src[1]["ops"][0], at=bi)):
+                vals = paths.discr_values(t, src[1])
+                edges |= {(bi, lab) for lab, v in vals.items() if v == "None"}
+    for b2, t2 in body.calls():
+        d = callee_def(t2)
+        if d in ("core::option::Option::<T>::is_none", "core::option::Option::<T>::is_some") and t2["args"]:
+            if pred(flow.backward(body, t2["args"][0], at=b2)):
+                o2 = flow.outcomes_of_call(body, b2)
+                edges |= o2.get("true") if d.endswith("is_none") else o2.get("false")
+    return edges
 
 
 def rule_prepare(chk, db, roles):
@@ -98,8 +133,7 @@ def rule_prepare(chk, db, roles):
         ok = False
         for bi, t in dc.calls():
             if short(callee_def(t)) == "credentials":
-                o = flow.outcomes_of_call(dc, bi)
-                none, some = o.get("None"), o.get("Some")
+                none = absent_edges(dc, bi)
                 if none:
                     fw = first_writes_from(dc, none)
                     ok = bool(fw) and all(is_err_write(w) for w in fw)
@@ -247,16 +281,9 @@ def rule_r5(chk, db, roles):
     if inner is None:
         chk.anchor_missing("R5", "default body of S3Route::check_access not found")
     else:
-        ok = False
-        for bi in inner.live_blocks():
-            t = inner.blocks[bi]["term"]
-            if t["k"] == "switch":
-                src = paths.switch_source(inner, t)
-                if src and src[0] == "discr" and "Credentials" in src[1]["enum"]:
-                    vals = paths.discr_values(t, src[1])
-                    none = {(bi, lab) for lab, v in vals.items() if v == "None"}
-                    fw = first_writes_from(inner, none)
-                    ok = bool(fw) and all(is_err_write(w) for w in fw)
+        none = absent_edges_of_place(inner, lambda sl: ("S3Request", "credentials") in sl.fields or any(f == "credentials" for _, f in sl.fields))
+        fw = first_writes_from(inner, none) if none else []
+        ok = bool(fw) and all(is_err_write(w) for w in fw)
         chk.verdict(ok, "R5", "route-default-refuses-anonymous", inner.loc(), "the default S3Route::check_access does not return Err for anonymous requests")
 
 
